@@ -229,6 +229,34 @@ func (r *assignRun) runGrow(c assignCase, want shardMap) {
 	}
 	r.violate(c, checkStep(before, after, g.Live, g.To, c.RF), "master.ModifyShardAssignment")
 	r.observe("grow", g.Live, len(before), after, g.Sel)
+	// Observation only (NOT an oracle clause): the statement's round-robin clause speaks about "one assignment",
+	// which this check reads as the shards handed out by one call. Over the WHOLE database the first replicas can
+	// become unbalanced after a growth step, because ModifyShardAssignment starts from a fresh start index instead
+	// of continuing the previous round. Counted for growth steps on the unchanged live set.
+	if sameList(g.Live, c.Live) {
+		cnt := map[int]int{}
+		for _, reps := range after {
+			if len(reps) > 0 {
+				cnt[reps[0]]++
+			}
+		}
+		mn, mx := 1<<30, 0
+		for _, n := range g.Live {
+			if cnt[n] < mn {
+				mn = cnt[n]
+			}
+			if cnt[n] > mx {
+				mx = cnt[n]
+			}
+		}
+		r.rep.Count("obs_growth_same_live_set", 1)
+		if mx-mn > 1 {
+			r.rep.Count("obs_growth_same_live_set_whole_db_first_replica_counts_differ_by_more_than_1", 1)
+			if _, ok := r.rep.Extra["obs_example_whole_db_imbalance_after_growth"]; !ok && c.Shards == 1 && g.To == 2 {
+				r.rep.Extra["obs_example_whole_db_imbalance_after_growth"] = fmt.Sprintf("live %v rf %d: create %d shard(s) with %s -> %v; grow to %d with %s -> %v", c.Live, c.RF, c.Shards, c.Sel, before, g.To, g.Sel, after)
+			}
+		}
+	}
 	if len(g.Live) >= 2 {
 		r.rep.DistinctNontrivial++
 	}
